@@ -326,3 +326,20 @@ Theorem C02_link_destination_unclosed_angle : forall (d : bytes),
   parse_link_destination space_table punct_table (60%N :: d) = None.
 Proof. exact (angle_unclosed space_table punct_table). Qed.
 Print Assumptions C02_link_destination_unclosed_angle.
+
+(* ---------------- the conformance statement itself, on a fragment, for EVERY document ----------
+   For every document made of plain paragraphs (words [a-z]+ separated by single blanks and soft
+   line breaks, paragraphs separated by one empty line), with or without the final newline, the
+   Convert model - the whole parser model and the renderer model - maps the CommonMark spelling
+   md_of to the prescribed HTML html_of.  A parser-correctness proof (proofs/SpecPara*.v): the
+   block driver, the paragraph parser, the link reference definition transformer, the inline
+   scan with soft breaks and trailing-blank trimming, and the renderer are run symbolically. *)
+Require Import GM.model.Html GM.model.ParseI GM.proofs.SpecParaConform.
+Theorem C02_plain_documents_conform : forall c fin d,
+  hardwraps c = false -> plain_doc d = true ->
+  ConvertModel c (md_of false fin d) = Ok (html_of d).
+Proof. exact plain_doc_conforms. Qed.
+Print Assumptions C02_plain_documents_conform.
+(* non-vacuity: a two-paragraph document with a soft break is in the fragment *)
+Example C02_plain_doc_demo : plain_doc [BPara 0 [AWord [97;98]; AWord [99]; ASoft; AWord [100]]; BPara 0 [AWord [101]]] = true.
+Proof. reflexivity. Qed.
